@@ -25,8 +25,18 @@ def gen_imp(rng, p=0.2):
 
 def gen_units(rng, nchild=None):
     n = rng.randint(0, 3) if nchild is None else nchild
-    return {'id': rng.choice(IDS), 'name': rng.choice(NAMES + STD), 'imp': gen_imp(rng, 0.1),
-            'children': [{'ref': rng.choice(STD + NAMES), 'pfx': rng.choice(PFX), 'id': rng.choice(IDS), 'exp': rng.choice(NUMS), 'mult': rng.choice(NUMS)} for _ in range(n)]}
+    children = [{'ref': rng.choice(STD + NAMES), 'pfx': rng.choice(PFX), 'id': rng.choice(IDS), 'exp': rng.choice(NUMS), 'mult': rng.choice(NUMS)} for _ in range(n)]
+    if children and rng.random() < 0.35:
+        # identical unit children (metre . metre): a one-to-one matching is needed to compare them
+        children.insert(rng.randrange(len(children) + 1), dict(rng.choice(children)))
+    return {'id': rng.choice(IDS), 'name': rng.choice(NAMES + STD), 'imp': gen_imp(rng, 0.1), 'children': children}
+
+
+def _with_twin(rng, items):
+    import copy
+    if items and rng.random() < 0.25:
+        items.insert(rng.randrange(len(items) + 1), copy.deepcopy(rng.choice(items)))
+    return items
 
 
 def gen_var(rng):
@@ -42,7 +52,7 @@ def gen_reset(rng):
 def gen_comp(rng, depth=2, uniform_vars=None):
     nv = rng.randint(0, 3) if uniform_vars is None else uniform_vars
     return {'id': rng.choice(IDS), 'name': rng.choice(NAMES), 'enc': rng.choice(IDS), 'math': rng.choice(MATH), 'imp': gen_imp(rng, 0.1),
-            'vars': [gen_var(rng) for _ in range(nv)], 'resets': [gen_reset(rng) for _ in range(rng.choice([0, 0, 1, 2]))],
+            'vars': [gen_var(rng) for _ in range(nv)], 'resets': _with_twin(rng, [gen_reset(rng) for _ in range(rng.choice([0, 0, 1, 2]))]),
             'kids': [gen_comp(rng, depth - 1, uniform_vars) for _ in range(rng.randint(0, 2 if depth > 0 else 0))] if depth > 0 else []}
 
 
